@@ -1,3 +1,4 @@
+import Harper.Driver.Wasm
 import Harper.Driver.DictIO
 import Harper.Driver.Mask
 import Harper.Driver.LintGroup
@@ -77,7 +78,8 @@ def handlers : List (String × (List String → String)) := [
   ("gitcut", Mask.handleGitCut),
   ("cursor", Mask.handleCursor),
   ("mdtrav", Mask.handleMdTrav),
-  ("dio", DictIO.handleDio), ("dload", DictIO.handleDload), ("dsave", DictIO.handleDsave), ("dchunk", DictIO.handleDchunk)
+  ("dio", DictIO.handleDio), ("dload", DictIO.handleDload), ("dsave", DictIO.handleDsave), ("dchunk", DictIO.handleDchunk),
+  ("wasm", Wasm.handleWasm)
 ]
 
 def handle (line : String) : String :=
